@@ -274,4 +274,143 @@ theorem fmPieces_covers (fm : FM) (y0 x0 c0 y x c k : Nat)
     (coalesce_preserves_bytes (rawPieces fm y0 x0 c0) (fmAddr fm y x c + k) p.delta).mpr ⟨p, hp, hcov, rfl⟩
   exact ⟨q, hq, hqcov, fun h => by rw [hqd]; exact hd h⟩
 
+
+theorem split_off (o L s : Nat) (h : o < L * s) : ∃ d r, d < L ∧ r < s ∧ o = d * s + r := by
+  have hs : 0 < s := by
+    cases s with
+    | zero => rw [Nat.mul_zero] at h; omega
+    | succ n => omega
+  refine ⟨o / s, o % s, (Nat.div_lt_iff_lt_mul hs).mpr h, Nat.mod_lt _ hs, ?_⟩
+  have := Nat.div_add_mod o s
+  rw [Nat.mul_comm] at this
+  omega
+
+/-- 9 (run level). every byte of every piece of a run is a byte of an element of the run -/
+theorem runPieces_exact (fm : FM) (y0 x0 c0 y xa xb : Nat) (htile : xb ≤ fm.width0 ∨ fm.width0 ≤ xa)
+    (p : Piece) (hp : p ∈ runPieces fm y0 x0 c0 y xa xb) (B : Nat) (hB : p.covers B) :
+    ∃ x c k, xa ≤ x ∧ x < xb ∧ c < fm.depth ∧ k < fm.elemBytes ∧ B = fmAddr fm y x c + k ∧
+      ((fm.nhcwb16 = true → c0 % 16 = 0) →
+        p.delta = (canon fm (y + y0) (x + x0) (c + c0) : Int) - (fmAddr fm y x c : Int)) := by
+  unfold runPieces at hp
+  split at hp
+  · cases hp
+  rename_i hlt
+  cases hn : fm.nhcwb16 with
+  | false =>
+    rw [hn] at hp
+    simp only [Bool.false_eq_true, if_false] at hp
+    split at hp
+    · rename_i hfull
+      rw [List.mem_singleton] at hp
+      subst hp
+      unfold mkPiece Piece.covers at hB
+      simp only at hB
+      obtain ⟨d, r, hd, hr, ho⟩ := split_off (B - fmAddr fm y xa 0) (xb - xa) fm.strideX (by omega)
+      rw [← hfull] at hr
+      obtain ⟨c, k, hc, hk, hr2⟩ := split_off r fm.depth fm.elemBytes hr
+      have hA := fmAddr_run_nhwc fm hn y xa d c (by omega)
+      have hC := canon_run_nhwc fm hn (y + y0) xa d x0 c c0
+      refine ⟨xa + d, c, k, by omega, by omega, hc, hk, by omega, fun _ => ?_⟩
+      unfold mkPiece; simp only
+      rw [hA, hC]; exact (delta_shift _ _ _).symm
+    · obtain ⟨d, hd, rfl⟩ := List.mem_map.mp hp
+      rw [List.mem_range] at hd
+      unfold mkPiece Piece.covers at hB
+      simp only at hB
+      obtain ⟨c, k, hc, hk, ho⟩ := split_off (B - fmAddr fm y (xa + d) 0) fm.depth fm.elemBytes (by omega)
+      have hA : fmAddr fm y (xa + d) c = fmAddr fm y (xa + d) 0 + (0 * fm.strideX + c * fm.elemBytes) :=
+        fmAddr_run_nhwc fm hn y (xa + d) 0 c (by omega)
+      have hC : canon fm (y + y0) (xa + d + x0) (c + c0) =
+          canon fm (y + y0) (xa + d + x0) (0 + c0) + (0 * fm.strideX + c * fm.elemBytes) :=
+        canon_run_nhwc fm hn (y + y0) (xa + d) 0 x0 c c0
+      refine ⟨xa + d, c, k, by omega, by omega, hc, hk, by omega, fun _ => ?_⟩
+      unfold mkPiece; simp only
+      rw [hA, hC]; exact (delta_shift _ _ _).symm
+  | true =>
+    rw [hn] at hp
+    simp only [if_true] at hp
+    obtain ⟨cb, hcb, hp⟩ := List.mem_flatMap.mp hp
+    rw [List.mem_range] at hcb
+    unfold ceilDiv at hcb
+    split at hp
+    · rename_i h16
+      rw [List.mem_singleton] at hp
+      subst hp
+      unfold mkPiece Piece.covers at hB
+      simp only at hB
+      obtain ⟨e, k, he, hk, ho⟩ := split_off (B - fmAddr fm y xa (16 * cb)) ((xb - xa) * 16) fm.elemBytes (by omega)
+      obtain ⟨d, r, hr, rfl⟩ : ∃ d r, r < 16 ∧ e = d * 16 + r := ⟨e / 16, e % 16, by omega, by omega⟩
+      have e1 : (16 * cb + r) / 16 = cb := by omega
+      have e2 : (16 * cb + r) % 16 = r := by omega
+      have hA := fmAddr_run_b16 fm hn y xa d (16 * cb + r) (by omega)
+      rw [e1, e2] at hA
+      have h2 := Nat.add_mul (d * 16) r fm.elemBytes
+      have h3 := Nat.mul_assoc d 16 fm.elemBytes
+      refine ⟨xa + d, 16 * cb + r, k, by omega, by omega, by omega, hk, by omega, fun h0 => ?_⟩
+      have hC := canon_run_b16 fm hn (y + y0) xa d x0 (16 * cb + r) c0 (h0 rfl)
+      rw [e1, e2] at hC
+      unfold mkPiece; simp only
+      rw [hA, hC]; exact (delta_shift _ _ _).symm
+    · rename_i h16
+      obtain ⟨d, hd, rfl⟩ := List.mem_map.mp hp
+      rw [List.mem_range] at hd
+      unfold mkPiece Piece.covers at hB
+      simp only at hB
+      obtain ⟨r, k, hr, hk, ho⟩ := split_off (B - fmAddr fm y (xa + d) (16 * cb))
+        (min 16 (fm.depth - 16 * cb)) fm.elemBytes (by omega)
+      have e1 : (16 * cb + r) / 16 = cb := by omega
+      have e2 : (16 * cb + r) % 16 = r := by omega
+      have hA : fmAddr fm y (xa + d) (16 * cb + r) = fmAddr fm y (xa + d) (16 * ((16 * cb + r) / 16)) +
+          (0 * (16 * fm.elemBytes) + ((16 * cb + r) % 16) * fm.elemBytes) :=
+        fmAddr_run_b16 fm hn y (xa + d) 0 (16 * cb + r) (by omega)
+      rw [e1, e2] at hA
+      refine ⟨xa + d, 16 * cb + r, k, by omega, by omega, by omega, hk, by omega, fun h0 => ?_⟩
+      have hC : canon fm (y + y0) (xa + d + x0) (16 * cb + r + c0) =
+          canon fm (y + y0) (xa + d + x0) (16 * ((16 * cb + r) / 16) + c0) +
+            (0 * (16 * fm.elemBytes) + ((16 * cb + r) % 16) * fm.elemBytes) :=
+        canon_run_b16 fm hn (y + y0) (xa + d) 0 x0 (16 * cb + r) c0 (h0 rfl)
+      rw [e1, e2] at hC
+      unfold mkPiece; simp only
+      rw [hA, hC]; exact (delta_shift _ _ _).symm
+
+
+theorem rawPieces_exact (fm : FM) (y0 x0 c0 : Nat) (p : Piece) (hp : p ∈ rawPieces fm y0 x0 c0)
+    (B : Nat) (hB : p.covers B) :
+    ∃ y x c k, y < fm.height ∧ x < fm.width ∧ c < fm.depth ∧ k < fm.elemBytes ∧ B = fmAddr fm y x c + k ∧
+      ((fm.nhcwb16 = true → c0 % 16 = 0) →
+        p.delta = (canon fm (y + y0) (x + x0) (c + c0) : Int) - (fmAddr fm y x c : Int)) := by
+  unfold rawPieces at hp
+  obtain ⟨y, hy, hp⟩ := List.mem_flatMap.mp hp
+  rw [List.mem_range] at hy
+  rcases List.mem_append.mp hp with hp | hp
+  · obtain ⟨x, c, k, _, hx, h⟩ := runPieces_exact fm y0 x0 c0 y 0 (min fm.width fm.width0)
+      (Or.inl (by omega)) p hp B hB
+    exact ⟨y, x, c, k, hy, by omega, h⟩
+  · obtain ⟨x, c, k, _, hx, h⟩ := runPieces_exact fm y0 x0 c0 y fm.width0 fm.width
+      (Or.inr (Nat.le_refl _)) p hp B hB
+    exact ⟨y, x, c, k, hy, hx, h⟩
+
+/-- 9. the footprint is exact: every byte of every piece of `fmPieces` is a byte of an addressed element
+    (and the piece carries that element's tag). Both layouts; NHCWB16 tag part needs `c0 % 16 = 0`. -/
+theorem fmPieces_exact (fm : FM) (y0 x0 c0 : Nat) (p : Piece) (hp : p ∈ fmPieces fm y0 x0 c0)
+    (B : Nat) (hB : p.covers B) :
+    ∃ y x c k, y < fm.height ∧ x < fm.width ∧ c < fm.depth ∧ k < fm.elemBytes ∧ B = fmAddr fm y x c + k ∧
+      ((fm.nhcwb16 = true → c0 % 16 = 0) →
+        p.delta = (canon fm (y + y0) (x + x0) (c + c0) : Int) - (fmAddr fm y x c : Int)) := by
+  obtain ⟨q, hq, hqB, hqd⟩ := (coalesce_preserves_bytes (rawPieces fm y0 x0 c0) B p.delta).mp ⟨p, hp, hB, rfl⟩
+  obtain ⟨y, x, c, k, h1, h2, h3, h4, h5, h6⟩ := rawPieces_exact fm y0 x0 c0 q hq B hqB
+  exact ⟨y, x, c, k, h1, h2, h3, h4, h5, fun h => by rw [← hqd]; exact h6 h⟩
+
+/-- the bytes touched by `fmPieces` are exactly the bytes of the addressed elements -/
+theorem fmPieces_bytes_iff (fm : FM) (y0 x0 c0 B : Nat) :
+    (∃ p ∈ fmPieces fm y0 x0 c0, p.covers B) ↔
+      ∃ y x c k, y < fm.height ∧ x < fm.width ∧ c < fm.depth ∧ k < fm.elemBytes ∧ B = fmAddr fm y x c + k := by
+  constructor
+  · intro ⟨p, hp, hB⟩
+    obtain ⟨y, x, c, k, h1, h2, h3, h4, h5, _⟩ := fmPieces_exact fm y0 x0 c0 p hp B hB
+    exact ⟨y, x, c, k, h1, h2, h3, h4, h5⟩
+  · intro ⟨y, x, c, k, h1, h2, h3, h4, h5⟩
+    obtain ⟨p, hp, hB, _⟩ := fmPieces_covers fm y0 x0 c0 y x c k h1 h2 h3 h4
+    exact ⟨p, hp, h5 ▸ hB⟩
+
 end VelaVerif.Footprint
